@@ -18,6 +18,7 @@ PROPS = {
     'C17': 'WASM entry points: option plumbing never traps',
     'C01': 'every symbol is the ISO symbol of its input (encoder side of decode round-trip)',
     'C10': 'building is total: no panic, overflow, out-of-bounds, non-termination',
+    'C16': 'terminal rendering encodes the matrix with a one-module light border',
 }
 
 
@@ -73,6 +74,14 @@ def assumptions(b, pid):
     for c in b['contracts']:
         if c.assumed:
             a.append('ASSUMED (not proved) contract of %s: %s' % (c.name, c.assumed))
+    for m, lg in sorted(b.get('logs', {}).items()):
+        for l in lg:
+            if l.startswith('F1 '):
+                a.append('ASSUMED (extraction rule F1, module %s): %s' % (m, l))
+            if l.startswith('IO1 '):
+                a.append('NOT VERIFIED (module %s): %s' % (m, l))
+    if pid == 'C16':
+        a.append('ASSUMED: vstd specifications of String::new / String::push / String::push_str over the view Seq<char>; assume_specification String::with_capacity(n)@ == empty')
     return a
 
 MANIFEST_META = {
@@ -134,6 +143,10 @@ MANIFEST_META = {
         'text': 'Every function reachable from QRBuilder::build (12 source files, all bodies verified, none assumed) is proved by Verus free of integer overflow/underflow, out-of-range indexing and slicing, failing unwrap, reachable panic!/unreachable!/assert!/debug assertions (the two debug_assert blocks are kept as must-hold assertions), and every loop and recursion has a proved decreases measure; the only preconditions at the entry point are those the property itself names (a forced mode must accept the input).',
         'note': 'usize is fixed to 64 bits. Loop headers are normalised by documented rules (see extraction_log). color_to_code in wasm.rs is not on the build path (C17).',
     },
+    'C16': {
+        'text': 'Verus proves on the real helpers::print_line / print_matrix_with_margin / QRCode::to_str that, for every well-formed matrix of any of the 40 sizes and any content, the returned String (vstd view: Seq<char>) is exactly term_render(q): (size+1)/2+1 lines of size+2 characters separated by line feeds, the character at line k, column c being the glyph (space / lower half / upper half / full block; ink = light) of half rows 2k and 2k+1 of the bordered picture, where half row r >= 1, column c is module (r-2, c-1) inside the symbol and light outside (one-module border on all four sides) and half row 0 is the un-inked spare half of the first line. The indexed reading of the statement (line count, width, alphabet, in-place decoding, line feeds) is derived from that definition by model lemmas (lemma_term_render_decodes). All loops carry invariants and decreases; indexing of the rows is proved in bounds.',
+        'note': 'ASSUMED contracts: vstd specifications of String::new/push/push_str, an assume_specification for String::with_capacity (empty string), and extraction rule F1: format!("{X}\\n") with X a char constant is replaced by a generated external_body helper whose assumed postcondition is "the result is exactly the characters X, line feed" (Display of a char writes that char). QRCode::print (println!) is dropped (terminal I/O). Bounded native clause (to_str decoded back for every built symbol of the corpus) is the stand-in when the renderer is restructured beyond the extraction rules.',
+    },
     'C14': {
         'category': 'other',
         'text': 'Contract part: every QRBuilder setter is proved to write exactly its field and keep all others (last value wins); build(&self) cannot change the builder and its result satisfies a postcondition over the final field values only. Structural part: a scan of /repo/src for static mut / interior mutability / globals / time / randomness must be empty; a hit leaves the property undecided by contracts and the bounded native oracle (reused builders, overridden and re-ordered setters, builds after other builds, 8 concurrent threads on a deterministic corpus) decides, labelled bounded. No schedule exploration exists in this technique family.',
@@ -145,7 +158,6 @@ _NYB = 'not yet built in this round (work in progress; will be claimed or given 
 NOT_APPLICABLE = {
             'C12': 'SVG text is built with format!/String::push_str/join and function-pointer calls; Verus has no format!/string-content reasoning and Kani on String code here is prohibitive (4 symbolic bytes > 20 min): no contract within reach can express it',
     'C13': 'pixels come out of usvg/resvg/tiny-skia/png (external crates, floating-point rasterisation); no repository function whose contract could state them and no verifier here reaches those crates',
-    'C16': 'terminal renderer builds a String of multi-byte chars via push/push_str/format!; same limits as C12',
     'C19': 'the repository part is two ?-propagations around File::create/write_all/save_png; deciding file contents and fault behaviour needs contracts on std::fs/png, not on this code (Kani spike: foreign close/write unsupported)',
 }
 
